@@ -9,3 +9,9 @@ TRUSTED = ['A1', 'A2', 'A4', 'A5', 'A6', 'UF']
 
 def jobs(tier):
     return jobs_for('C17', MODULES, tier)
+
+
+def extra(tier, seed):
+    from fvverif.lean import lemma_status
+    ok, detail = lemma_status(['scaled_solution', 'unique_solution', 'invariant_iterate'], rebuild=(tier == 'thorough'))
+    return [('lean lemmas scaled_solution/unique_solution/invariant_iterate: rows scaled by positive factors, unknown scaled by K (SMT, per row) => the solution scales by K; several steps by iteration', ok, 'lean:' + detail)]
